@@ -13,9 +13,9 @@ fi
 mkdir -p .work/bin
 cp /repo/go.sum harness/go.sum
 (cd harness && go build -tags verif -o ../.work/bin/harness .)
-# 3. translator: grammar + action table of the current /repo
-.work/bin/harness grammar > .work/grammar.json
-python3 tools/gen_grammar.py .work/grammar.json coq/Gen/Grammar.v > .work/gen.log
+# 3. translators: every generated file under coq/Gen (grammar + action table, package-variable footprint,
+#    capacity constants) is rewritten from the current /repo, so a stale committed copy can never be built against
+python3 tools/regen.py > .work/gen.log
 # 4. Coq
 cd coq
 coq_makefile -f _CoqProject -o Makefile > /dev/null
